@@ -12,6 +12,7 @@ From Inovesa Require Import Base.FieldKit Base.RInst Base.Float32 Base.Sums Mode
   Proofs.CausalP.
 From Inovesa Require Import Model.Impedance Model.ImpedanceR Model.ImpKit Model.ImpedanceSpec Model.ImpGenInst
   Gen.Gen_Imp Proofs.ImpedanceP Proofs.ImpedanceRP Proofs.ImpedanceVP Proofs.ImpedanceGenP Proofs.ImpedanceGenRP.
+From Inovesa Require Model.ImpPure Proofs.ImpPureP.
 Import ListNotations.
 Local Open Scope Z_scope.
 
@@ -440,3 +441,31 @@ Print Assumptions C16_causality_mirror_partial.
 (** the hypotheses of 5b are satisfiable: the exact 4-point twiddle table *)
 Example C16_causality_example : twiddle_laws QcF cs4 sn4.
 Proof. exact (proj1 laws_Qc4). Qed.
+
+(** 6. the impedance functions carry no state from one call to the next (strengthening after seeded change
+    C16-H: a result cached in function-local statics under an incomplete key).  Everything above is about
+    Gallina FUNCTIONS of the arguments, i.e. it silently assumes that the C++ functions are.  Generated
+    fact ([imp_decls] of Gen/Gen_Imp.v, written by translate/imp2coq.py from EVERY function definition of
+    the six classes and the factory): every variable these bodies declare or refer to either ends with the
+    call (parameter, automatic local) or is a call-independent constant; none is [Persistent] (static /
+    thread_local local, non-const variable defined outside the function, non-const static data member), and
+    the table covers the functions the theorems of sections 4-5 are about.  Hence the process that serves
+    a sequence of requests is the stateless procedure: the answer to a request after ANY history in the
+    same process is the answer a fresh process gives, and histories concatenate.  (The correspondence
+    check runs such sequences on the implementation and compares every answer bit for bit with that of a
+    fresh process.)  Not covered: functions called from these bodies that live outside src/Z (std, boost,
+    Display, Ruler). *)
+Theorem imp_functions_pure :
+  (forall f v l, In f imp_decls -> In (v, l) (ImpPure.fn_vars f) -> l <> ImpPure.Persistent) /\
+  (forall name, In name ImpPure.imp_required -> exists f, In f imp_decls /\ ImpPure.fn_name f = name) /\
+  (forall (K : Fld) (E : Leaves K) (hist : list (ImpPureP.request K)) (r : ImpPureP.request K),
+     last (ImpPureP.serve_requests E (hist ++ [r])) None = ImpPureP.answer E r /\
+     ImpPureP.serve_requests E (hist ++ [r]) = ImpPureP.serve_requests E hist ++ ImpPureP.serve_requests E [r]).
+Proof. exact ImpPureP.imp_functions_pure_thm. Qed.
+Print Assumptions imp_functions_pure.
+
+(** the checker is not vacuous: it rejects the table of a function with a cache in static locals
+    ([cached_example] of Proofs/ImpPureP.v: parameter nfreqs, static local last_rv) and an empty table *)
+Example imp_functions_pure_example :
+  ImpPure.all_pure ImpPureP.cached_example = false /\ ImpPure.covers ImpPure.imp_required [] = false.
+Proof. split; reflexivity. Qed.
